@@ -98,7 +98,15 @@ inline bytes gen_key()
     return bytes(16, 0x00);
   if (kind == 1)
     return bytes(16, 0xff);
-  return expand(g::u64(), 16, 0);
+  bytes k = expand(g::u64(), 16, 0);
+  if (kind == 2 || kind == 3) // one 0x00 byte somewhere (binary keys are not C strings)
+    k[(size_t)g::range(0, 16)] = 0;
+  else if (kind == 4) // several special bytes
+    k = expand(g::u64(), 16, 4);
+  else if (kind == 5) // every byte has its top bit set
+    for (auto &x : k)
+      x |= 0x80;
+  return k;
 }
 
 inline wapi::SchedSpec gen_sched(int T, size_t blocks)
@@ -168,9 +176,16 @@ inline void gen_enc(Case &c, const GenOpts &o = GenOpts())
   if (g::coin(60))
     T = (int)g::range(o.minT, std::min(o.maxT, 4) + 1); // small T most of the time: more chunks per stream
   uint64_t len = gen_len(chunk, T, o);
+  if (o.max_len >= 8192 && g::coin(3))
+  {
+    // now and then several hundred chunks (counters that fit a byte for ordinary files would wrap)
+    chunk = 16;
+    T = (int)g::range(o.minT, std::min(o.maxT, 3) + 1);
+    len = (uint64_t)g::range(250, 600) * 16 + (uint64_t)g::range(0, 16);
+  }
   c.seti("plen", (long long)len);
   c.set("pseed", std::to_string(g::u64()));
-  c.seti("pstyle", g::range(0, 10) < 7 ? 0 : g::range(1, 4));
+  c.seti("pstyle", g::range(0, 10) < 6 ? 0 : g::range(1, 5));
   c.setb("key", gen_key());
   c.setb("seed", gen_seed());
   c.seti("cmode", g::range(0, 5));
